@@ -13,7 +13,7 @@ pub static DEF: PropDef = PropDef {
     title: "Decoding is total",
     rule: "Inputs: G-wire tapes (valid control/data encodings with 0-3 structural mutations, control headers around generated AVP records, raw octets), \
 the complete grid {attribute type 0..41 and 3 others} x {payload length 0..40} x {H bit, vendor id} x {2 payload fills} as one-record control bodies, \
-every byte string of length <= 2, and every 16-bit value of each enumerated field (message type, error type, proxy type, attribute type, vendor id) inside a control message. One tape in sixteen is additionally decoded through a reader that declines one bytes() request (the trait allows None), one in a hundred on a thread with a 64 KiB stack. Each input is decoded under all 8 option sets and as a bare AVP list, in both build profiles, in a child process \
+every byte string of length <= 2, and every 16-bit value of each enumerated field (message type, error type, proxy type, attribute type, vendor id) inside a control message. One tape in sixteen is additionally decoded through a reader that declines one bytes() request (the trait allows None), one in a hundred on a thread with a 64 KiB stack, one in fifty from a destructor while the thread unwinds and from thread-local destructors at thread exit. Each input is decoded under all 8 option sets and as a bare AVP list, in both build profiles, in a child process \
 (aborts and hangs are observed by the supervisor). Non-trivial = input of at least 2 octets (past the flags guard); distinct by hash of the input octets.",
     assumptions: &[
         "non-termination is decided by a watchdog (20 s for one case) with re-confirmation, i.e. up to a time bound",
@@ -114,6 +114,9 @@ fn err_class(e: &DecodeError) -> &'static str {
         IncompleteControlMessageHeader => "err IncompleteControlMessageHeader",
         IncompleteControlMessagePayload => "err IncompleteControlMessagePayload",
         ControlMessageTypeNotFirst => "err ControlMessageTypeNotFirst",
+        // a variant added to the crate later must not stop the harness from building
+        #[allow(unreachable_patterns)]
+        _ => "err (variant unknown to the harness)",
     }
 }
 pub fn error_class(e: &DecodeError) -> &'static str {
@@ -277,6 +280,42 @@ fn check_small_stack(b: &[u8], cx: &mut Cx) -> Res {
     }
 }
 
+/// the same decodes called from a destructor while the thread unwinds, and from thread-local destructors at thread exit:
+/// no panic there either, and the same results
+fn check_contexts(b: &[u8], cx: &mut Cx) -> Res {
+    let owned = b.to_vec();
+    let f: std::sync::Arc<dyn Fn() -> String + Send + Sync> = std::sync::Arc::new(move || {
+        let mut s = String::new();
+        for o in all_opts() {
+            s.push_str(&match crate_decode(&owned, o) {
+                Caught::Ok(r) => format!("{:?};", r),
+                _ => "panic;".to_string(),
+            });
+        }
+        s.push_str(&match crate_decode_avps(&owned) {
+            Caught::Ok(r) => format!("{:?}", r),
+            _ => "panic".to_string(),
+        });
+        s
+    });
+    cx.eval();
+    cx.stage(STAGE_ARMED);
+    let want = f();
+    let r = crate::props::history::same_in_contexts(&want, f);
+    cx.stage(STAGE_SETUP);
+    match r {
+        Ok(true) => {
+            cx.class("also decoded while unwinding and from thread-local destructors at thread exit");
+            Ok(())
+        }
+        Ok(false) => Ok(()),
+        Err((how, got)) => {
+            let what = if got.contains("panic") { "panicked" } else { "returned a different result" };
+            cx.fail_sig(sig_of(b), format!("decode {} when called {}", what, how), || json!({"input": hex(b), "there": got.chars().take(300).collect::<String>(), "normally": want.chars().take(300).collect::<String>()}))
+        }
+    }
+}
+
 fn run_tape(_part: &str, tape: &[u8], cx: &mut Cx) -> Res {
     let mut t = Tape::new(tape);
     let mode = t.below(100);
@@ -286,6 +325,8 @@ fn run_tape(_part: &str, tape: &[u8], cx: &mut Cx) -> Res {
         check_flaky(&b, &mut t, cx)?;
     } else if mode == 10 {
         check_small_stack(&b, cx)?;
+    } else if mode == 11 || mode == 12 {
+        check_contexts(&b, cx)?;
     }
     Ok(())
 }
